@@ -18,6 +18,7 @@ import (
 	"github.com/mdlayher/corerad/internal/system"
 	"github.com/mdlayher/corerad/internal/vfh"
 	"github.com/mdlayher/metricslite"
+	"github.com/mdlayher/ndp"
 )
 
 // runReinit: "from the initial advertisement of a (re)initialised interface": a link-state change at
@@ -97,6 +98,109 @@ func runReinitOnce(t *testing.T, tf, window time.Duration) (line string, late bo
 		line = impl.String()
 	})
 	return line, late
+}
+
+// runReinitLLA: the interface is re-established inside one Run (a link-state change every tf);
+// every dial finds it with the given index and hardware address.  Observed: the source link-layer
+// address option (its last byte; 0 = no option) of the first RA written on every connection.
+//
+//	reinlla tf nd (idx mac)* | nconn lla*
+type reinDial struct{ idx, mac int }
+
+func runReinitLLA(t *testing.T, out *vfh.Out, tf time.Duration, dials []reinDial) {
+	out.Pending(fmt.Sprintf("runReinitLLA every=%v dials=%+v", tf, dials))
+	synctest.Test(t, func(t *testing.T) {
+		st := &vfState{forwarding: true}
+		cfg := vfAdvConfig(200*time.Second, 600*time.Second, false, 1800*time.Second)
+		mm := NewMetrics(metricslite.NewMemory(), "v", time.Time{}, st, []config.Interface{cfg})
+		cctx := NewContext(nil, mm, st)
+		watchC := make(chan netstate.Change, 8)
+		var mu sync.Mutex
+		var conns []*vfConn
+		d := system.NewDialer("vf0", st, system.Advertise, nil)
+		d.DialFunc = func() (*system.DialContext, error) {
+			c := newVfConn()
+			mu.Lock()
+			k := len(conns)
+			conns = append(conns, c)
+			mu.Unlock()
+			if k >= len(dials) {
+				k = len(dials) - 1
+			}
+			var hw net.HardwareAddr
+			if dials[k].mac != 0 {
+				hw = net.HardwareAddr{2, 0, 0, 0, 0, byte(dials[k].mac)}
+			}
+			return &system.DialContext{Conn: c,
+				Interface: &net.Interface{Index: dials[k].idx, Name: "vf0", HardwareAddr: hw},
+				IP:        netip.MustParseAddr("fe80::1")}, nil
+		}
+		a := NewAdvertiser(cctx, cfg, d, watchC, func() bool { return false })
+		ctx, cancel := context.WithCancel(context.Background())
+		done := make(chan error, 1)
+		go func() { done <- a.Run(ctx) }()
+		synctest.Wait()
+		for k := 1; k < len(dials); k++ {
+			time.Sleep(tf)
+			watchC <- netstate.LinkDown
+			synctest.Wait()
+		}
+		time.Sleep(time.Second)
+		synctest.Wait()
+		mu.Lock()
+		cs := append([]*vfConn(nil), conns...)
+		mu.Unlock()
+		impl := new(vfh.Toks).N(len(cs))
+		for _, c := range cs {
+			lla := 0
+			if ws := c.snapshot(); len(ws) > 0 && ws[0].ra != nil {
+				for _, o := range ws[0].ra.Options {
+					if l, ok := o.(*ndp.LinkLayerAddress); ok && l.Direction == ndp.Source && len(l.Addr) == 6 {
+						lla = int(l.Addr[5])
+					}
+				}
+			} else {
+				lla = 255 // nothing was sent on this connection
+			}
+			impl.N(lla)
+		}
+		cancel()
+		select {
+		case <-done:
+		case <-time.After(10 * time.Minute):
+		}
+		c := new(vfh.Toks).S("reinlla").I(int64(tf)).N(len(dials))
+		for _, dl := range dials {
+			c.N(dl.idx).N(dl.mac)
+		}
+		out.Line(c.String(), impl.String())
+		out.Flush()
+	})
+}
+
+// verifReinitState: what a (re)initialisation reads of the system (the hardware address behind the
+// source link-layer address option) is read at EVERY (re)initialisation (C01).
+func verifReinitState(t *testing.T, r *vfh.Rand, out *vfh.Out) {
+	fixed := [][]reinDial{
+		{{1, 1}, {1, 2}},         // same index, the hardware address changed
+		{{1, 1}, {1, 0}},         // … disappeared
+		{{1, 0}, {1, 3}},         // … appeared
+		{{1, 1}, {7, 2}},         // the interface was re-created
+		{{1, 1}, {1, 1}},         // nothing changed
+		{{1, 1}, {1, 1}, {1, 4}}, // changed at the second re-initialisation only
+		{{1, 1}, {2, 2}, {1, 3}},
+	}
+	for _, ds := range fixed {
+		runReinitLLA(t, out, 5*time.Second+1, ds)
+	}
+	for i := vfh.N(12, 200); i > 0; i-- {
+		n := 2 + r.Intn(3)
+		ds := make([]reinDial, n)
+		for k := range ds {
+			ds[k] = reinDial{idx: 1 + r.Intn(2), mac: r.Intn(5)}
+		}
+		runReinitLLA(t, out, time.Duration(r.Range(int64(time.Second), int64(20*time.Second)))|1, ds)
+	}
 }
 
 func verifReinit(t *testing.T, r *vfh.Rand, out *vfh.Out) {
